@@ -124,6 +124,13 @@ fn from_json_any_depth<T: serde::de::DeserializeOwned>(json: &str) -> serde_json
     Ok(value)
 }
 
+/// The names as they are written in their own package (`Lib::Time` -> `Time`).
+fn bare_names<'a>(names: impl Iterator<Item = &'a String>) -> Vec<String> {
+    names
+        .map(|name| name.rsplit("::").next().unwrap_or(name).to_string())
+        .collect()
+}
+
 fn reject_reserved_package_name(package: &str) -> Result<(), CompilationError> {
     if package == "Builtin" {
         return Err(compile_error(
@@ -290,6 +297,12 @@ pub fn build_package(opts: PackageInputs) -> Result<CoreUnit, CompilationError> 
         dep.exports.apply_to(&mut env);
     }
     interface.exports.apply_to(&mut env);
+    // The variants and foreign types of the imported packages are Go types of their bare
+    // names in the linked program: the temporaries made here stay apart from them too.
+    gensym.reserve(env.enums().values().flat_map(|def| {
+        def.variants.iter().map(|(variant, _)| variant.0.clone())
+    }));
+    gensym.reserve(bare_names(env.type_env.extern_types.keys()));
     let mut compile_diagnostics = Diagnostics::new();
     let core_ir =
         crate::compile_match::compile_file(&env, &gensym, &mut compile_diagnostics, &tast);
@@ -407,6 +420,7 @@ pub fn link_cores(cores: Vec<CoreUnit>) -> Result<LinkOutput, CompilationError> 
     gensym.reserve(genv.enums().iter().flat_map(|(name, def)| {
         std::iter::once(name.0.clone()).chain(def.variants.iter().map(|(variant, _)| variant.0.clone()))
     }));
+    gensym.reserve(bare_names(genv.type_env.extern_types.keys()));
     let (mono, monoenv, unbounded) = mono::mono_with_diagnostics(genv.clone(), linked.clone());
     if !unbounded.is_empty() {
         return Err(compile_error(format!(
